@@ -67,7 +67,10 @@ theorem identityWalk_owned (c : Config) (p : Packet) (l : List OwnerId) (h : l.a
         apply ih
         simpa [List.any_cons, ho] using h
 
-/-- **no_loop.** A packet sent by the proxy itself (socket owned by a proxy UID or GID) is never
+/-- **no_loop** (the statement's literal clause: never back to the OUTBOUND port; which packets can take the
+    remaining redirect to the inbound port is narrowed by `no_loop_narrow` / `delivery_not_looped`, and two
+    genuine loops through that redirect are recorded as witnesses at the end of this file).
+    A packet sent by the proxy itself (socket owned by a proxy UID or GID) is never
     redirected by nat/OUTPUT, with one exception: a TCP connection on `lo` to a non-loopback address
     (the application calling itself through the proxy) goes to the INBOUND capture port. In
     particular it never reaches the outbound port and never the DNS agent. -/
@@ -1163,5 +1166,98 @@ theorem drop_invalid_excluded_interface_witness :
       { exApp with hook := .prerouting, inIf := "docker0", outIf := "", ctstate := .invalid }).dropped = true ∧
     (fateOf { exCfg with dropInvalid := true, tproxy := true }
       { exApp with hook := .prerouting, inIf := "docker0", outIf := "", ctstate := .invalid }).dropped = false := by decide
+
+/-! ## no_loop narrowed: which proxy-owned packets can take the call-to-self redirect (review round 3) -/
+
+/-- When the identity blocks send a packet to the inbound listener, the packet is owned by the FIRST
+    identity, or the loopback bypass does not apply to it. -/
+theorem identityWalk_redirect_first_or_no_bypass (c : Config) (p : Packet) (o : OwnerId) (rest : List OwnerId)
+    (h : identityWalk c p (o :: rest) = some true) : o.owns p = true ∨ loopbackBypass c p = false := by
+  simp only [identityWalk] at h
+  by_cases ho : o.owns p = true
+  · exact Or.inl ho
+  · simp only [ho, Bool.false_eq_true, if_false] at h
+    by_cases hb : loopbackBypass c p = true
+    · simp [hb] at h
+    · exact Or.inr (by simpa using hb)
+
+/-- **no_loop, narrowed.** The one redirect `no_loop` allows (TCP on `lo` to a non-loopback address, to
+    the inbound port) is only ever taken by a packet that does NOT come from the passthrough source
+    127.0.0.6 / ::6 and that is owned by the FIRST configured proxy identity - or to which the loopback
+    bypass does not apply (a loopback range was explicitly included, or DNS capture and TCP port 53). nat
+    cannot see marks: that the proxy's own deliveries (TPROXY mode: original source, mark 1337) are not
+    looped rests on the proxy NOT running under the first identity there (uid 0 / gid 1337), see
+    `delivery_not_looped` and the two witnesses of the remaining cases. -/
+theorem no_loop_narrow (c : Config) (p : Packet) (d : Nat) (h : famOn c p.fam = true)
+    (hred : evalTable (d + 2) (rulesOf c p.fam) .nat .output p = .redirect c.inboundCapturePort)
+    (ho : proxyOwned c p = true) :
+    fromPassthrough p = false ∧
+    ∃ o rest, c.identities = o :: rest ∧ (o.owns p = true ∨ loopbackBypass c p = false) := by
+  rw [nat_output_correct c p d h] at hred
+  unfold natOutputSpec at hred
+  split at hred
+  · simp at hred
+  · rename_i hearly
+    simp only [Bool.or_eq_true, not_or, Bool.not_eq_true] at hearly
+    refine ⟨hearly.2, ?_⟩
+    cases hids : c.identities with
+    | nil =>
+      rw [proxyOwned_iff_identities, hids] at ho
+      simp at ho
+    | cons o rest =>
+      refine ⟨o, rest, rfl, ?_⟩
+      rw [hids] at hred
+      cases hw : identityWalk c p (o :: rest) with
+      | some b =>
+        cases b
+        · simp [hw] at hred
+        · exact identityWalk_redirect_first_or_no_bypass c p o rest hw
+      | none =>
+        -- not decided by the identity blocks: impossible for a proxy-owned packet
+        rw [proxyOwned_iff_identities, hids] at ho
+        rcases identityWalk_owned c p (o :: rest) ho with hx | ⟨hx, _⟩ <;> simp [hw] at hx
+
+/-- **The proxy's deliveries are not looped**: a packet on `lo` owned by a later identity only (the
+    TPROXY-mode proxy: uid 0, gid = proxy GID; its inbound -> application deliveries carry the original
+    source and mark 1337) is handed back untouched whenever the loopback bypass applies. -/
+theorem delivery_not_looped (c : Config) (p : Packet) (d : Nat) (h : famOn c p.fam = true)
+    (o : OwnerId) (rest : List OwnerId) (hids : c.identities = o :: rest) (hfirst : o.owns p = false)
+    (hb : loopbackBypass c p = true) :
+    evalTable (d + 2) (rulesOf c p.fam) .nat .output p = .accept p := by
+  rw [nat_output_correct c p d h]
+  unfold natOutputSpec
+  split
+  · rfl
+  · simp [hids, identityWalk, hfirst, hb]
+
+
+/-- A TPROXY-mode sidecar with DNS capture; the proxy runs as uid 0 / gid 1337 (injection template). -/
+def tpDnsCfg : Config := { exCfg with tproxy := true, redirectDNS := true, captureAllDNS := true }
+
+/-- Envoy's inbound -> application delivery in TPROXY mode: sent by uid 0 / gid 1337 on `lo` to the pod's
+    own address, original client source, mark 1337. -/
+def delivery : Packet :=
+  { exApp with uid := "0", gid := "1337", outIf := "lo", src := 134744072, dst := 167838211, dport := 8080, mark := 1337 }
+
+-- the ordinary delivery is handed back (not looped) ...
+example : (fateOf tpDnsCfg delivery).redirect = none := by decide
+
+/-- **FINDING `c20:gid-dns53-delivery-loop`** (genuine defect, not fixable without editing golden files):
+    TPROXY mode + DNS capture + an application listening on TCP port 53. The proxy's own delivery to
+    podIP:53 is not stopped by the first identity's `-p tcp ! --dport 53 ... RETURN` (port 53 is exempt from
+    the bypass), reaches the GID block - which has no DNS variant of the call-to-self rule - and is
+    REDIRECTED back to the proxy's inbound port 15006: the proxy receives its own delivery again, for ever. -/
+theorem gid_dns53_delivery_loop_witness :
+    (fateOf tpDnsCfg { delivery with dport := 53 }).redirect = some 15006 ∧
+    -- the same delivery sent by a proxy UID is safe (the UID block exempts port 53)
+    (fateOf tpDnsCfg { delivery with dport := 53, uid := "1337" }).redirect = none := by decide
+
+/-- Second remaining case of `no_loop_narrow` (recorded): with a loopback range explicitly included the
+    bypass rules are not emitted at all, and in TPROXY mode every delivery of the uid-0 / gid-1337 proxy is
+    sent back to the inbound port. -/
+theorem loopback_included_delivery_loop_witness :
+    (fateOf { exCfg with tproxy := true, outIncludeAll := false, outInclude := [⟨false, 2130772483, 32⟩, ⟨false, 167772160, 8⟩] }
+      delivery).redirect = some 15006 := by decide
+
 
 end IstioModel.C20
